@@ -2,9 +2,9 @@
 # usage: tools/try_benign.sh <Bxx> <check ids...>
 # applies a behaviour-preserving refactoring to /repo and runs quick checks: every one must stay silent (exit 0)
 B=$1; shift
-P=/tmp/benign/$B/_seed/patch.diff
+P=${BDIR:-/tmp/benign}/$B/_seed/patch.diff
 [ -f "$P" ] || { echo "no patch for $B"; exit 2; }
-mkdir -p /verif/benign/$B && cp /tmp/benign/$B/_seed/patch.diff /tmp/benign/$B/_seed/meta.json /verif/benign/$B/ 2>/dev/null
+mkdir -p /verif/benign/$B && cp ${BDIR:-/tmp/benign}/$B/_seed/patch.diff ${BDIR:-/tmp/benign}/$B/_seed/meta.json /verif/benign/$B/ 2>/dev/null
 git -C /repo apply "$P" || { echo "$B: PATCH DOES NOT APPLY"; exit 2; }
 cd /verif
 for id in "$@"; do
